@@ -44,6 +44,48 @@ def call_text(e):
     raise OutOfLanguage(type(e).__name__)
 
 
+class Atom(str):
+    """A call atom: prints as its name (which drops grouping parentheses, like the code's names) but is identified by
+    the structure of its argument expressions, so I((x+z)*w) and I(x+z*w) are two factors with one name."""
+
+    def __new__(cls, name, key):
+        o = super().__new__(cls, name)
+        o.key = key
+        return o
+
+    def __eq__(self, other):
+        if isinstance(other, Atom):
+            return self.key == other.key
+        return False
+
+    def __ne__(self, other):
+        return not self == other
+
+    def __hash__(self):
+        return hash(("atom", self.key))
+
+
+def call_key(e):
+    """Structure of a call atom: fully parenthesised, grouping nodes dropped (they are implied by the tree)."""
+    if isinstance(e, Call):
+        return call_key(e.callee) + "(" + ", ".join(call_key(a) for a in e.args) + ")"
+    if isinstance(e, Variable):
+        return e.name.lexeme
+    if isinstance(e, QuotedName):
+        return "`" + e.expression.lexeme[1:-1] + "`"
+    if isinstance(e, Literal):
+        return repr(e.value) + ":" + type(e.value).__name__
+    if isinstance(e, Binary):
+        return "(" + call_key(e.left) + " " + e.operator.lexeme + " " + call_key(e.right) + ")"
+    if isinstance(e, Unary):
+        return "(" + e.operator.lexeme + call_key(e.right) + ")"
+    if isinstance(e, Grouping):
+        return call_key(e.expression)
+    if isinstance(e, Assign):
+        return call_key(e.name) + "=" + call_key(e.value)
+    raise OutOfLanguage(type(e).__name__)
+
+
 def only_terms(m, what):
     terms, icpt = m
     if icpt != 0:
@@ -75,7 +117,7 @@ def ev(e):
     if isinstance(e, QuotedName):
         return ([(e.expression.lexeme[1:-1],)], 0)
     if isinstance(e, Call):
-        return ([(call_text(e),)], 0)
+        return ([(Atom(call_text(e), call_key(e)),)], 0)
     if isinstance(e, Unary):
         if e.operator.kind == "PLUS":
             return ev(e.right)
@@ -190,6 +232,27 @@ def expand(tree):
         else:
             common.add(":".join(t))
     return response, common, group
+
+
+def expand_counts(tree):
+    """Number of common / group-specific terms per name (names can collide for distinct call atoms)."""
+    from collections import Counter
+    rhs = tree.right if isinstance(tree, Binary) and tree.operator.kind == "TILDE" else tree
+    terms, icpt = ev(rhs)
+    common, group = Counter(), Counter()
+    if icpt != -1:
+        common["Intercept"] += 1
+    for t in terms:
+        if t and t[0] == "|":
+            group[("1" if t[1] == "ICPT" else ":".join(t[1])) + "|" + ":".join(t[2])] += 1
+        else:
+            common[":".join(t)] += 1
+    return common, group
+
+
+def observed_counts(model):
+    from collections import Counter
+    return Counter(t.name for t in model.common_terms), Counter(t.name for t in model.group_terms)
 
 
 def observed(model):
